@@ -34,6 +34,36 @@ def gen(rng, n):
         else:
             S.lossy(rng, d, heavy=True)
         d["RETRY"] = rng.below(2)
+        if rng.chance(1, 2):
+            # a server with far more to send than its budget: 0.5-RTT data before the client is validated
+            d["SERVER_EARLY"] = 1
+            d["SERVER_STREAMS"] = rng.range(1, 3)
+            d["STREAM_BYTES"] = rng.choice([8000, 30000])
+            d["RETRY"] = 0
+            if rng.chance(1, 2):
+                d["CONTROLLER"] = 3
+                d["FIXED_WINDOW"] = 1000000
+            if m != 1 and rng.chance(1, 2):
+                d["DROP_MASK"] = rng.below(1 << rng.range(2, 10)) << 1
+                d["DROP_MASK_DIR"] = 1
+        if rng.chance(1, 4):
+            # the client vanishes after its first datagram; an attacker keeps feeding forged
+            # (unauthenticated, partly coalesced) Initials from the client's address to a server that
+            # has much more to send than its budget
+            d["SERVER_EARLY"] = 1
+            d["SERVER_STREAMS"] = 2
+            d["STREAM_BYTES"] = 30000
+            d["RETRY"] = 0
+            d["SILENCE_AFTER"] = rng.range(1, 2)
+            d["SILENCE_SIDE"] = 0
+            d["GARBAGE"] = 1000
+            # make the amplification limit, not the congestion window, the binding constraint
+            d["CONTROLLER"] = 3
+            d["FIXED_WINDOW"] = 1000000
+            d["IDLE_MS"] = 3000
+            d["MAX_TIME"] = 10_000_000
+            d.pop("DROP_MASK", None)
+            d.pop("MIGRATE_AT", None)
         d["GSO"] = rng.choice([1, 3, 10])
         if rng.chance(1, 3):
             d["INITIAL_MTU"] = rng.choice([1200, 1400])
